@@ -60,6 +60,9 @@ package functioncontracts
 //@ -- SSA phi semantics: on the execution that enters the block through predecessor i, the phi has the value of its
 //@ -- i-th edge, so a fact about the edge value holds of the phi (the tables being extended are those of that predecessor)
 //@ assume ssa-phi-semantics (soundFact (iface *ssa.Phi (local instr)) (local candNil))
+//@ -- the same along a back edge, where the phis of the loop header are evaluated before the values of the previous
+//@ -- iteration are forgotten (phiNilness[j] is what the table knew about the edge value of phis[j])
+//@ assume ssa-phi-semantics-on-back-edges (soundFact (iface *ssa.Phi (local phi)) (idx (local phiNilness) (local j)))
 //@ loop 2 step propagated-table-is-a-private-copy (newinloop (local nTable))
 
 //@ -- C20 (first sentence: an inferred contract is true of EVERY execution): deriveContracts looks for a
